@@ -23,7 +23,7 @@ var (
 
 // markerAt reports whether a marker starts at s[i]: 0 none, 1 start, 2 end.
 func markerAt(s []byte, i int) int {
-	if i+3 <= len(s) && s[i] == 0xE2 && s[i+1] == 0x80 {
+	if i >= 0 && i+3 <= len(s) && s[i] == 0xE2 && s[i+1] == 0x80 {
 		switch s[i+2] {
 		case 0xB9:
 			return 1
